@@ -121,6 +121,12 @@ def run(ctx):
     res["evaluations"] += n
     res["distinct_nontrivial"] += nontriv
     res["stats"]["cache_query_sequences"] = n
+    # the section extraction of the docstring parser against its model
+    import doctypes
+    s_dis, s_n, s_stats = doctypes.run_sections_l0(ctx["seed"], ctx["tier"])
+    res["disagreements"] += s_dis
+    res["evaluations"] += s_n
+    res["stats"].update(s_stats)
     res["rule"] += "; plus random query sequences (repeats, implicit constructors, missing members) against the real DocstringParser " \
                    "cache on real griffe trees, compared with the model and with the uncached lookup; a sequence is non-trivial when " \
                    "it repeats a name and contains an __init__ query"
